@@ -483,12 +483,14 @@ fn lattice_cases() -> u64 {
 	NTYPES * start_modes().len() as u64 * DURS.len() as u64 * easings().len() as u64
 }
 /// tweens observed through the whole engine (AudioManager + device callbacks of arbitrary sizes)
-const ENGINE_CASES: u64 = 4;
-const ENGINE_NAMES: [&str; 4] = [
+const ENGINE_CASES: u64 = 6;
+const ENGINE_NAMES: [&str; 6] = [
 	"engine: tweener modulator 0->1 over 2 s linked to a sound's volume, 6 callback partitions of 32 frames (internal buffer 4)",
 	"engine: sound set_volume(-20 dB -> 0 dB over 2 s), 6 callback partitions",
 	"engine: clock set_speed(1 -> 4 ticks/s over 2 s) while the clock is not ticking, start 3 s later, 6 callback partitions",
 	"engine: clock set_speed(1 -> 4 ticks/s over 2 s) on a ticking clock, 6 callback partitions",
+	"engine: sound set_volume(linked to a tweener, 1 s tween); after the tween the tweener moves and the volume follows, 6 callback partitions",
+	"engine: listener set_position tween seen by an effect on a spatial track: each chunk starts where the previous one ended, 6 callback partitions",
 ];
 
 impl C06 {
@@ -539,7 +541,7 @@ impl Check for C06 {
 		format!("{} {:?} dur={} {:?}", type_name(t), sm, d, e)
 	}
 	fn rule(&self) -> String {
-		"product of 11 Tweenable types + tweener modulator x start modes (immediate, delayed 0 / 1.5 s, clock reached at update 0/1/3, clock missing, clock paused) x durations {0,0.25,1,2.5,4} x 7 easings x ordered value pairs of a 4-point lattice x every update sequence of length 6 over dt in {0.5,1,2} (729) x a second set() before every update index (different target/duration/easing); thorough adds a third set(). Model states = distinct (phase, start, target, time, remaining delay, value) of the reference; every history is replayed on the real Parameter/Tweener; plus 4 engine scenes (tweener-driven volume, sound volume tween, clock speed tween on a stopped / ticking clock) rendered through the AudioManager under 6 partitions of 32 frames into device callbacks (internal buffer 4): progress within one update of elapsed/duration, exactly on target afterwards".into()
+		"product of 11 Tweenable types + tweener modulator x start modes (immediate, delayed 0 / 1.5 s, clock reached at update 0/1/3, clock missing, clock paused) x durations {0,0.25,1,2.5,4} x 7 easings x ordered value pairs of a 4-point lattice x every update sequence of length 6 over dt in {0.5,1,2} (729) x a second set() before every update index (different target/duration/easing); thorough adds a third set(). Model states = distinct (phase, start, target, time, remaining delay, value) of the reference; every history is replayed on the real Parameter/Tweener; plus 6 engine scenes (tweener-driven volume, sound volume tween, clock speed tween on a stopped / ticking clock, a tween towards a modulator link, listener position seen by a spatial track's effect) rendered through the AudioManager under 6 partitions of 32 frames into device callbacks (internal buffer 4): progress within one update of elapsed/duration, exactly on target afterwards".into()
 	}
 	fn assumptions(&self) -> Vec<String> {
 		vec![
@@ -1114,6 +1116,101 @@ fn engine_pass(which: u64, ctx: &mut Ctx) {
 				}
 				ctx.nontrivial_extra += 1;
 				ctx.outcome(hash64(&(which, out.last().map(|x| x.0.to_bits()))));
+			}
+			4 => {
+				// a tween whose target is a modulator link: from its end on the parameter equals the (moving) target
+				let mut tw_h = m.add_modulator(TweenerBuilder { initial_value: 0.0 }).expect("tweener");
+				let data = rig::static_data(SR, rig::dc_frames(4, 0.5)).loop_region(Region::from(..));
+				let mut h = m.play(data.volume(-20.0)).expect("play");
+				let mut sink = vec![];
+				rig::render_stereo(&mut m, IBS, &mut sink);
+				let link: Value<Decibels> = Value::FromModulator {
+					id: tw_h.id(),
+					mapping: Mapping { input_range: (0.0, 1.0), output_range: (Decibels(-20.0), Decibels(0.0)), easing: Easing::Linear },
+				};
+				h.set_volume(link, Tween { start_time: StartTime::Immediate, duration: Duration::from_secs(1), easing: Easing::Linear });
+				let mut out: Vec<(f32, f32)> = vec![];
+				let mut k = 0;
+				// 2 s: the 1 s tween (towards mapping(0) = -20 dB: no audible change) is over
+				while out.len() < 2 * SR as usize {
+					rig::render_stereo(&mut m, parts[k % parts.len()].min(2 * SR as usize - out.len()), &mut out);
+					k += 1;
+					ctx.transitions += 1;
+				}
+				tw_h.set(1.0, Tween { start_time: StartTime::Immediate, duration: Duration::ZERO, easing: Easing::Linear });
+				let mut tail: Vec<(f32, f32)> = vec![];
+				for _ in 0..4 {
+					rig::render_stereo(&mut m, IBS, &mut tail);
+				}
+				let last = tail.last().map(|f| f.0).unwrap_or(0.0);
+				if (last - 0.5).abs() > 1e-6 {
+					ctx.fail(
+						"after a tween to a modulator-linked target has ended the parameter no longer follows the modulator :: engine #4",
+						format!("{}; after tweener.set(1.0, instant) and 4 more buffers the gain is {} (expected 0.5 = mapping(1) = 0 dB); {:?}", desc(), last, tail.iter().map(|f| f.0).collect::<Vec<_>>()),
+					);
+				}
+				ctx.nontrivial_extra += 1;
+				ctx.state(hash64(&(which, last.to_bits())));
+				ctx.outcome(hash64(&(which, last.to_bits())));
+			}
+			5 => {
+				// continuity of a vector-valued parameter across chunks, observed where it is consumed
+				use kira::track::SpatialTrackBuilder;
+				use std::sync::{Arc, Mutex};
+				type Log = Arc<Mutex<Vec<([f32; 3], [f32; 3])>>>;
+				struct Probe(Log);
+				struct ProbeB(Log);
+				impl kira::effect::EffectBuilder for ProbeB {
+					type Handle = ();
+					fn build(self) -> (Box<dyn kira::effect::Effect>, ()) {
+						(Box::new(Probe(self.0)), ())
+					}
+				}
+				impl kira::effect::Effect for Probe {
+					fn process(&mut self, _input: &mut [kira::Frame], _dt: f64, info: &kira::info::Info) {
+						if let Some(l) = info.listener_info() {
+							let a = l.interpolated_position(0.0);
+							let b = l.interpolated_position(1.0);
+							if let Ok(mut g) = self.0.try_lock() {
+								if g.len() < g.capacity() {
+									g.push(([a.x, a.y, a.z], [b.x, b.y, b.z]));
+								}
+							}
+						}
+					}
+				}
+				let log: Log = Arc::new(Mutex::new(Vec::with_capacity(256)));
+				let mut l = m.add_listener(glam::Vec3::ZERO, glam::Quat::IDENTITY).expect("listener");
+				let mut t = m.add_spatial_sub_track(&l, glam::Vec3::new(0.0, 0.0, -1.0), SpatialTrackBuilder::new().with_effect(ProbeB(log.clone()))).expect("spatial track");
+				let _s = t.play(rig::static_data(SR, rig::dc_frames(4, 0.5)).loop_region(Region::from(..))).expect("play");
+				let mut sink = vec![];
+				rig::render_stereo(&mut m, IBS, &mut sink);
+				log.lock().unwrap().clear();
+				l.set_position(glam::Vec3::new(8.0, 0.0, 16.0), tw2);
+				for &n in parts.iter() {
+					rig::render_stereo(&mut m, n, &mut sink);
+					ctx.transitions += 1;
+				}
+				let g = log.lock().unwrap().clone();
+				let mut bad = None;
+				for w in g.windows(2) {
+					let (prev_end, cur_start) = (w[0].1, w[1].0);
+					if (0..3).any(|i| (prev_end[i] - cur_start[i]).abs() > 1e-5) {
+						bad = Some(format!("a chunk ends at {:?}, the next one starts at {:?}", prev_end, cur_start));
+						break;
+					}
+				}
+				// and it moves: within the 2 s of the tween consecutive chunk ends differ
+				let moving = g.iter().take(3).any(|c| c.0 != c.1);
+				if bad.is_none() && !moving {
+					bad = Some(format!("the position does not move inside the first chunks of the tween: {:?}", &g[..g.len().min(4)]));
+				}
+				if let Some(b) = bad {
+					ctx.fail("a tweened listener position is not continuous across chunks where it is consumed (each chunk must start from the previous chunk's final value) :: engine #5", format!("{}; {}", desc(), b));
+				}
+				ctx.nontrivial_extra += 1;
+				ctx.state(hash64(&(which, g.len())));
+				ctx.outcome(hash64(&(which, g.len())));
 			}
 			_ => {
 				let mut c = m.add_clock(ClockSpeed::TicksPerSecond(1.0)).expect("clock");
